@@ -38,12 +38,12 @@ RULE = ("cases = two-level NRZ waveforms (random / PRBS7 patterns of 64..256 slo
         "{0,-d/2,-3d,+2d} plus pedestals |a|/(b-a) in {30,100,1000} of both signs, noise sigma in [0.5%,5%] of b-a, Bessel LPF at 0.7..1.0 R) each run twice (a third of the even-length ones as ONE electrical_signal(signal, noise) object evaluated three times with the twin built from that object's arrays afterwards, operands monitored for modification): as is and scaled by "
         "alpha in [1e-3,1e3] (log-uniform) with an offset beta (up to 1000 swings, and 1e5..2e7 swings for a few), same numpy seed; call histories (earlier calls in the same process on grids of the same total size but other samples per slot, with and without sps_resamp); a positional twin GET_EYE(input, nslots, sps_resamp) for a quarter of the short records; two FIXED streams that do not depend on VERIF_SEED: 1 mV eyes at alpha=1000 vs alpha=0.3 with identical timing demanded, and one record swept over 150 numpy seeds; degenerate inputs (constant, single level) for "
         "the error branches.  non-trivial = both runs returned finite estimates; distinct by all parameters")
-PARTIAL = ["'scaling leaves the timing outputs unchanged' is demanded EXACTLY (identical t_left, t_right, t_opt, i) on a fixed stream of 1 mV eyes "
-           "compared at 1 V (alpha=1000) and at 0.3 mV (alpha=0.3) — 200 records in quick, 900 in thorough, every one validated on the "
-           "unchanged tree (0 differences; also 0 of 9000 other record/amplitude pairs at 0.3, 0.5 and 1 mV) — and within ONE step of the "
-           "1/128 grid on the twins drawn from VERIF_SEED (any alpha in [1e-3, 1e3]): below about 0.1 mV of scaled amplitude the unchanged "
-           "code itself moves t_left/t_right/t_opt (once also i) by one grid step on 0.06 % (0.1 mV), 0.5 % (10 uV), 0.7 % (3 uV) and "
-           "1.7 % (1 uV) of the records, because shortest_int breaks ties with an ABSOLUTE tolerance of 1e-10 (reported as a finding)",
+PARTIAL = ["'scaling leaves the timing outputs unchanged' is demanded EXACTLY (identical t_left, t_right, t_opt, i) on every equivariance twin: "
+           "any alpha in [1e-3, 1e3] and any offset drawn from VERIF_SEED, and a fixed stream of 1 mV eyes compared at 1 V (alpha=1000) and "
+           "at 0.3 mV (alpha=0.3), 200 records in quick / 900 in thorough.  (Until the fix 47f89c3 the absolute 1e-10 tie tolerance of "
+           "shortest_int moved the timing by one grid step on 0.06 %..1.7 % of the records at scaled amplitudes of 0.1 mV..1 uV — found by "
+           "this check, corpus/C17/tie_tolerance_small_amplitude.json; with the relative tolerance: 0 differences in 4000 record/amplitude "
+           "pairs down to 1 uV.)  It remains an oracle clause: the equivariance of KMeans/KDE/resample themselves is library behaviour",
            "the clauses are demanded for every state of numpy's global RNG only on a sweep of one fixed record under 150 numpy seeds "
            "(quick) plus two records x 1000 seeds (thorough); all other cases run under one numpy seed each",
            "accuracy clauses (mu within 8 % of b-a, s in [sigma/2, 2 sigma + 3 %], mu0<threshold<mu1 strictly, t_right-t_left within "
@@ -76,7 +76,7 @@ SWEEP_RECORDS_THOROUGH = [{"sps": 32, "nsl": 127, "pattern": "random", "a": -0.3
 
 def gen_cases(rng, tier):
     cases = []
-    nrep = 120 if tier == "quick" else 1200
+    nrep = 100 if tier == "quick" else 1200
     for i in range(nrep):
         sps = [8, 16, 32][i % 3]
         d = 10 ** rng.uniform(-3, 2)
@@ -765,11 +765,10 @@ def oracle(case, res):
         for nm in ("s0", "s1"):
             if not (abs(f2[nm] - al * f1[nm]) <= 0.01 * al * d):
                 v.append(("C17:equivariance-spread", f"{nm}: scaled run {f2[nm]:.6g} vs alpha*{nm} = {al * f1[nm]:.6g} {tag}"))
-        step = 1.0 / case["spsr"]
         for nm in ("t_left", "t_right", "t_opt"):
-            if not (abs(f2[nm] - f1[nm]) <= step + 1e-12):
-                v.append(("C17:equivariance-timing", f"{nm}: {f1[nm]} became {f2[nm]} after scaling {tag}"))
-        if not (abs(f2["i"] - f1["i"]) <= (0 if f2["t_opt"] == f1["t_opt"] else 1)):
+            if not (f2[nm] == f1[nm]):
+                v.append(("C17:equivariance-timing", f"{nm}: {f1[nm]} became {f2[nm]} after scaling (the timing outputs must be unchanged) {tag}"))
+        if not (f2["i"] == f1["i"]):
             v.append(("C17:equivariance-index", f"i: {f1['i']} became {f2['i']} after scaling {tag}"))
     return v
 
